@@ -604,7 +604,10 @@ tx_outs:\n{tx_outs}
         tx_in = self.tx_ins[input_index]
         script_sig = tx_in.script_sig
         script_pubkey = tx_in.script_pubkey(self.network)
+        # whether the input spends a witness program (natively or wrapped in p2sh)
+        witness_spend = False
         if script_pubkey.is_p2wpkh() or script_pubkey.is_p2wsh() or script_pubkey.is_p2tr():
+            witness_spend = True
             # BIP141/BIP341: the ScriptSig of a native witness program is empty
             if len(script_sig.commands) > 0:
                 print("ScriptSig of a witness program must be empty")
@@ -621,9 +624,15 @@ tx_outs:\n{tx_outs}
             redeem_script = RedeemScript.convert(script_sig.commands[-1])
             # BIP141: for p2sh-p2wpkh/p2sh-p2wsh the ScriptSig is exactly
             # the push of the RedeemScript
-            if redeem_script.is_witness_script() and len(script_sig.commands) != 1:
-                print("ScriptSig of p2sh-wrapped witness program has extra items")
-                return False
+            if redeem_script.is_witness_script():
+                witness_spend = True
+                if len(script_sig.commands) != 1:
+                    print("ScriptSig of p2sh-wrapped witness program has extra items")
+                    return False
+        # BIP141: an input that does not spend a witness program has no witness
+        if not witness_spend and tx_in.witness is not None and len(tx_in.witness.items) > 0:
+            print("unexpected witness for a non-witness input")
+            return False
         # combine the scripts
         combined_script = script_sig + script_pubkey
         # evaluate the combined script
